@@ -803,7 +803,9 @@ func RunRPCServer(portrpc int, block bool) {
 	if err == nil {
 		err0 := sourceControl.ConfigureSimPulseSource(&spc, &okay)
 		if err0 != nil {
-			panic(err0)
+			// Don't panic: a stored configuration that the source rejects (as it did when it was
+			// requested and stored) must not prevent Dastard from starting.
+			log.Printf("Stored SimPulse source configuration not accepted: %v\n", err0)
 		}
 	}
 	var tsc TriangleSourceConfig
@@ -816,7 +818,7 @@ func RunRPCServer(portrpc int, block bool) {
 	if err == nil {
 		err0 := sourceControl.ConfigureTriangleSource(&tsc, &okay)
 		if err0 != nil {
-			panic(err0)
+			log.Printf("Stored Triangle source configuration not accepted: %v\n", err0)
 		}
 	}
 	var lsc LanceroSourceConfig
